@@ -21,10 +21,12 @@ use vcore::amounts::pick;
 use vcore::{CaseCtx, Family, PropSpec, Tier, Violation};
 
 pub const N_USERS: usize = 4;
-pub const N_NATIVE: usize = 2;
+pub const N_NATIVE: usize = 3;
 pub const N_CW20: usize = 3;
 pub const N_TOK: usize = N_NATIVE + N_CW20;
-pub const NATIVE: [&str; N_NATIVE] = ["uatom", "ujuno"];
+/// the third denom contains a slash and extends the first one (an LP-share style denom): everything after
+/// the second slash of a voucher denom is the base denom
+pub const NATIVE: [&str; N_NATIVE] = ["uatom", "ujuno", "uatom/lp"];
 pub const DEFAULT_TIMEOUT: u64 = 1000;
 
 // ------------------------------------------------------------------ case types
@@ -644,6 +646,15 @@ pub fn run_case(prop: &str, case: &Case, ctx: &mut CaseCtx) -> Result<(), Violat
                     let tmsg = TransferMsg { channel: chan_id(chx), remote_address: "remote-user-a".into(), timeout: None, memo: None };
                     let r = try_exec(&mut w.app, &w.users[by].clone(), &w.ics20.clone(), &ExecuteMsg::Transfer(tmsg), &[Coin::new(amount, denom)]);
                     ctx.count(if r.is_ok() { "op_alias_native_ok" } else { "op_alias_native_fail" });
+                    // the packet is in flight like any other: it can be acknowledged, refused or time out later
+                    // (a refund is paid in the cw20 token the denom names - with that token's gas limit)
+                    if r.is_ok() {
+                        let all = sent_packets(&w.app);
+                        if let (Some(sp), true) = (all.last(), all.len() == pre.n_sent + 1) {
+                            seq += 1;
+                            pkts.push(Pkt { ch: chx, tok: N_NATIVE + *tok as usize % N_CW20, amount, sender: w.users[by].to_string(), data: sp.data.clone(), timeout: sp.timeout.clone(), state: PState::InFlight, seq });
+                        }
+                    }
                 }
                 Done::Other
             }
@@ -1199,6 +1210,11 @@ fn check_gas(prop: &str, w: &World, pre: &Obs, subs: &[SubLog], at: &str, ctx: &
                     Some(limit) => *limit,
                     None => pre.cfg.default_gas_limit,
                 };
+                // "the token's current limit or else the default": with neither an allow-list entry nor a
+                // default there is nothing a payout could be issued with (the contract refuses such payouts)
+                if !pre.allowed.contains_key(contract_addr) && pre.cfg.default_gas_limit.is_none() {
+                    return Err(v(prop, "payout-without-limit-source", format!("{at}: payout sub-call to {contract_addr} although the token is not on the allow list and no default gas limit is configured")));
+                }
                 if s.gas_limit != want {
                     return Err(v(prop, "payout-gas-limit", format!("{at}: payout sub-call to {contract_addr} issued with gas limit {:?}, expected {:?} (allow list entry {:?}, default {:?})", s.gas_limit, want, pre.allowed.get(contract_addr), pre.cfg.default_gas_limit)));
                 }
